@@ -22,7 +22,7 @@ PROPERTY = "C03"
 META = dict(
     explanation="Positions of the neighbouring frame are *defined* as position + elapsed time x sum_e T_e u(e, j) with symbolic "
                 "tensions, tangents and time stamps; the captured right-hand side is compared with that resultant.",
-    bounds=dict(series="3 frames, inference at frame 0, 1, 2", tissues="T3 (K4-n0 with two used junctions thorough)",
+    bounds=dict(series="3 frames, inference at frame 0, 1, 2; 2 frames, inference at both", tissues="T3 (K4-n0 with two used junctions thorough)",
                 methods="default, lsq; lsq_linear structure only (C05)", renumbering="identity / reversal / gaps / derangement per frame"),
     outside=["4- and 5-frame series", "tracking search (C12): correspondence given through initial_guess",
              "conditioning of the system (how far the minimiser moves under the 5e-4 perturbation)"],
@@ -31,12 +31,11 @@ META = dict(
 )
 
 
-def consistent(env, topo, perms, t, method):
+def consistent(env, topo, perms, t, method, nframes=3):
     import forsys as fs
     spec0 = catalogue(topo, n_spoke=2, n_border=2)
     internal = spec0.internal_lines()
     used = spec0.used_junctions()
-    nframes = 3
     other = t + 1 if t < nframes - 1 else t - 1
     ends = set()
     for ln, pts in spec0.lines.items():
@@ -149,6 +148,10 @@ def jobs(tier):
                     js.append(Job(f"consistent-{topo}-{'-'.join(perms)}-t{t}-{method or 'default'}", "c03:consistent",
                                   dict(topo=topo, perms=list(perms), t=t, method=method), budget_s=1200, max_paths=3000,
                                   opts=dict(cheap_forks=True), weight=4))
+    # two-frame series (the smallest series with dynamics): first frame forward, last frame backward
+    for t in (0, 1):
+        js.append(Job(f"consistent-T3-two-frames-t{t}", "c03:consistent", dict(topo="T3", perms=["id", "rev"], t=t, method=None, nframes=2),
+                      budget_s=1200, max_paths=3000, opts=dict(cheap_forks=True), weight=4))
     # O1 link: re-run of the C13 right-hand-side obligation on the smallest configuration
     for t in (0, 2):
         js.append(Job(f"rhs-T3-id-rev-gap-t{t}", "c13:rhs", dict(topo="T3", perms=["id", "rev", "gap"], t=t, adim=False, mode="velocity"),
